@@ -30,6 +30,7 @@ pending = {
 }
 import os, sys
 sys.path.insert(0, os.path.dirname(__file__))
+EXTRA_ENGINES = []
 try:
     from manifest_extra import extra_claimed
     claimed.update(extra_claimed)
@@ -63,7 +64,11 @@ m = {
  },
  "engines": [
    {"name": "fs-history", "path": "/verif/sim", "serves_properties": ["C01","C02","C03","C04","C05","C06","C07","C08","C16"], "kind_free_text": "seeded deterministic simulation of API histories on SimDisk/SimClock with reference model, independent reader and write-log monitors"},
- ],
+   {"name": "fs-crash", "path": "/verif/sim", "serves_properties": ["C09","C10"], "kind_free_text": "write-log prefix (power-cut) enumeration over simulated histories"},
+   {"name": "fs-fault", "path": "/verif/sim", "serves_properties": ["C11"], "kind_free_text": "per-device-call fault enumeration over simulated histories"},
+   {"name": "dir-media", "path": "/verif/sim", "serves_properties": ["C06","C17"], "kind_free_text": "generated / corrupted directory media read through the block-device seam"},
+   {"name": "mount", "path": "/verif/sim", "serves_properties": ["C15"], "kind_free_text": "independent formatter geometries and stored-byte corruption of MBR / boot sector / FSInfo at mount"},
+ ] + EXTRA_ENGINES,
  "checks": checks,
  "not_applicable": [{"property_id": k, "reason": v} for k, v in sorted({**na, **pending}.items())],
  "notes": "All checks: ./check <ID> quick|thorough; VERIF_SEED (default 1), VERIF_JOBS (default 16), VERIF_RUNS, VERIF_BUDGET_S. Exit 0 held / 1 VIOLATION / 2 harness error. Known findings: /verif/known_findings.jsonl.",
